@@ -45,7 +45,10 @@ BOUNDS = ('14 callable shapes (function/class/method x plain, defaults, kw-only,
           'scoped selector x bindings under <= 7 scope strings of depth <= 4 '
           '(prefixes and non-prefixes) with <= 2 parameters per scope x every '
           'valid positional/keyword/omitted split of alpha,beta,gamma(,delta) '
-          'plus <= 2 extra *args; 2 consecutive calls per case; sampled.')
+          'plus <= 2 extra *args (caller values: fresh objects or None/0/""/'
+          'False/[]); 2 consecutive calls per case, optionally with 1-2 '
+          '(re)bindings between them; fixed corners, then a seeded sample '
+          '(quick 9000, thorough 200000 cases).')
 EXHAUSTIVE = {'quick': False, 'thorough': False}
 
 NAMES = ('alpha', 'beta', 'gamma')
@@ -286,10 +289,14 @@ def _gen(rng, shape=None):
   via = 'with'
   if sig['kind'] not in ('method', 'reg_method') and rng.random() < 0.15:
     via = 'selector'
-  return {'shape': shape, 'via': via,
+  case = {'shape': shape, 'via': via,
           'scope': [list(active)] if via == 'selector' else _entries_for(active, rng),
           'bindings': bindings, 'calls': calls,
           'bind_by': rng.choice(['tuple', 'string', 'short'])}
+  if rng.random() < 0.3:   # history: (re)bind between the first and the second call
+    case['later'] = [[rng.choice(pre + non[:2]), rng.choice(_bindable(sig)), rng.choice(KINDS)]
+                     for _ in range(rng.choice([1, 2]))]
+  return case
 
 
 def cases(tier, rng):
@@ -353,7 +360,7 @@ def _show(x):
   return repr(x)[:120]
 
 
-def _compare(case, call, want, recs, exc, active):
+def _compare(case, call, want, recs, exc, active, bindings):
   sig = SHAPES[case['shape']]
   fails = []
 
@@ -378,7 +385,7 @@ def _compare(case, call, want, recs, exc, active):
   wnamed, wrest, wkw = want
   for p, tagged in wnamed.items():
     if not _same(tagged, named[p]):
-      fail(_classify(tagged, named[p], p, case['bindings'], active), p, tagged, named[p])
+      fail(_classify(tagged, named[p], p, bindings, active), p, tagged, named[p])
   if wrest is not None:
     if len(rest) != len(wrest) or not all(_same(t, g) for t, g in zip(wrest, rest)):
       fail('caller_value_unchanged', '*rest', wrest, rest, 'rest')
@@ -388,10 +395,10 @@ def _compare(case, call, want, recs, exc, active):
         fail('bound_value_received' if tagged[0] == 'bound' else 'caller_value_unchanged',
              p, tagged, '<absent>')
       elif not _same(tagged, kw[p]):
-        fail(_classify(tagged, kw[p], p, case['bindings'], active), p, tagged, kw[p])
+        fail(_classify(tagged, kw[p], p, bindings, active), p, tagged, kw[p])
     for p in kw:
       if p not in wkw:
-        clause = _classify(('default', None), kw[p], p, case['bindings'], active)
+        clause = _classify(('default', None), kw[p], p, bindings, active)
         fail('nothing_else_passed' if clause == 'unbound_left_to_default' else clause,
              p, '<absent>', kw[p])
   return fails
@@ -410,7 +417,12 @@ def check(case):
       gin.bind_parameter('%s%s.%s' % (scope + '/' if scope else '', sel, param), value)
   active = _active(case['scope'])
   fails = []
+  bindings = list(case['bindings'])
   for idx, call in enumerate(case['calls']):
+    if idx == 1 and case.get('later'):
+      for scope, param, kind in case['later']:   # a later binding replaces an earlier one
+        gin.bind_parameter((scope, selector, param), _bval(scope, param, kind))
+        bindings = [b for b in bindings if b[:2] != [scope, param]] + [[scope, param, kind]]
     del rec[:]
     order = sig['pos'][:call['npos']]
     order += ['rest%d' % i for i in range(call['npos'] - len(order))]
@@ -420,7 +432,7 @@ def check(case):
            for i, p in enumerate(order)]
     kw = {p: PLAIN[(i + off + 2) % 5] if plain else _Val('C%d:kw:%s' % (idx, p))
           for i, p in enumerate(call['kw'])}
-    want = _spec(sig, pos, kw, case['bindings'], active)
+    want = _spec(sig, pos, kw, bindings, active)
     exc = None
     try:
       if case['via'] == 'selector':
@@ -433,7 +445,7 @@ def check(case):
           target(*pos, **kw)
     except Exception as e:   # pylint: disable=broad-except
       exc = e
-    for f in _compare(case, call, want, list(rec), exc, active):
+    for f in _compare(case, call, want, list(rec), exc, active, bindings):
       f['call'] = idx
       fails.append(f)
   return fails
